@@ -293,9 +293,14 @@ def d3(ctx, rep):
             if not isinstance(deps, frozenset) or '?' in deps:
                 rep.undecided('D3.bounds', fit, s, f"what the standardised bound '{key}' is computed from is not derivable", construct=f"standardised '{key}'")
             else:
-                good = f'self.{attr}' in deps and f'self.{other}' not in deps
-                rep.check('D3.bounds', fit, s, good, f"'{key}' depends on the {attr} bound (and not on the {other} bound)",
-                          f"the standardised bound '{key}' is not computed from the {attr} bound (it depends on {sorted(deps)})", construct=f"standardised '{key}'")
+                # dependence sets over-approximate: "does not depend on its own bound" is definite, "also depends on the other bound" is only possible
+                if f'self.{attr}' not in deps:
+                    rep.bad('D3.bounds', fit, s, f"the standardised bound '{key}' is not computed from the {attr} bound (it depends on {sorted(deps)})", construct=f"standardised '{key}'")
+                elif f'self.{other}' in deps:
+                    rep.undecided('D3.bounds', fit, s, f"'{key}' may depend on the {other} bound as well (both limits travel together through a helper or a record)",
+                                  construct=f"standardised '{key}'")
+                else:
+                    rep.ok('D3.bounds', fit, s, f"'{key}' depends on the {attr} bound (and not on the {other} bound)", construct=f"standardised '{key}'")
 
 
 def _kde_dataset_arg(prog, fn, recv):
